@@ -31,11 +31,13 @@ def descriptions(ctx):
     lib = dflow_gen.library(n_small=2, n_big=ctx.pick(3, 4))
     if ctx.quick:
         # the heavier shapes (nested scatter, nested scatter with jobs) are explored on the thorough tier only
-        lib = [d for d in lib if d["name"] not in ("nested", "nestedx")]
+        lib = [d for d in lib if d["name"] not in ("nested", "nestedx", "sxg3t")]
     descs = []
     for d in lib:
         descs.append(d)
         if "jobs" in d["classes"] and "dead-end" not in d["classes"]:
+            if ctx.quick and d["name"] in ("xx2t", "sfx2"):
+                continue        # their single-failure variants are explored on the thorough tier
             descs.extend(dflow_gen.with_failures(d))
     rng = ctx.rng("random-graphs")
     for i in range(ctx.pick(6, 40)):
